@@ -141,7 +141,12 @@ static void do_gte(vf_case *c) {
 	gt_put(a, &A); vf_reseed(); VF_TRY(th, gt_exp(a, a, bk)); if (!th) expect_gt("gt_exp(c==a)", a, &E);
 	if (mpz_sgn(*k) >= 0 && mpz_sizeinbase(*k, 2) <= (size_t)VF_DIGB) { dig_t d = 0; mpz_export(&d, NULL, -1, sizeof(dig_t), 0, 0, *k); gt_put(a, &A); VF_TRY(th, gt_exp_dig(r, a, d)); if (th) vf_fail(NULL, "gt_exp_dig raised %d", th); else expect_gt("gt_exp_dig", r, &E); }
 	{ gt_t g; gt_new(g); gt_get_gen(g); relt G; relt_init(&G); gt_get(&G, g); if (relt_eq(&T12, &G, &A)) { VF_TRY(th, gt_exp_gen(r, bk)); if (th) vf_fail(NULL, "gt_exp_gen raised %d", th); else expect_gt("gt_exp_gen", r, &E); } relt_clear(&G); }
-	if (c->n >= 5) { gt_unpack(&C, c->v[3]); gt_ref_pow(&T, &C, c->v[4]); relt_mul(&T12, &E, &E, &T); if (vf_bn_set(bd, c->v[4])) { gt_put(a, &A); gt_put(cc, &C); vf_reseed(); VF_TRY(th, gt_exp_sim(r, a, bk, cc, bd)); if (th) vf_fail(NULL, "gt_exp_sim raised %d", th); else expect_gt("gt_exp_sim", r, &E); } }
+	if (c->n >= 5) { gt_unpack(&C, c->v[3]); gt_ref_pow(&T, &C, c->v[4]); relt_mul(&T12, &E, &E, &T); if (vf_bn_set(bd, c->v[4])) { gt_put(a, &A); gt_put(cc, &C); vf_reseed(); VF_TRY(th, gt_exp_sim(r, a, bk, cc, bd)); if (th) vf_fail(NULL, "gt_exp_sim raised %d", th); else expect_gt("gt_exp_sim", r, &E);
+#if FP_PRIME < 1536
+		/* the cyclotomic simultaneous exponentiation underneath, with the signed exponents as given (gt_exp_sim reduces them first) */
+		if (mpz_sizeinbase(*k, 2) <= RLC_FP_BITS && mpz_sizeinbase(c->v[4], 2) <= RLC_FP_BITS) { gt_put(a, &A); gt_put(cc, &C); vf_reseed(); VF_TRY(th, fp12_exp_cyc_sim(r, a, bk, cc, bd)); if (th) vf_fail(NULL, "fp12_exp_cyc_sim raised %d", th); else expect_gt("fp12_exp_cyc_sim", r, &E); }
+#endif
+	} }
 	relt_clear(&A); relt_clear(&E); relt_clear(&C); relt_clear(&T);
 }
 
@@ -200,6 +205,9 @@ static void enumerate(void) {
 			for (unsigned i = 0; i < 7; i++) if (vf_mine()) { mpz_set_si(k, ms[i]); rpt_mul(&RC, &P, &RG, k); K.op = "g1v"; K.n = 3; setp1(1, &P); vf_run(&K);
 				rpt_set(&T, &P); mpz_add_ui(T.y, T.y, 1); mpz_mod(T.y, T.y, RC.p); setp1(1, &T); vf_run(&K); rpt_set(&T, &P); mpz_add_ui(T.x, T.x, 1); mpz_mod(T.x, T.x, RC.p); setp1(1, &T); vf_run(&K); }
 			if (vf_mine()) { rpt_set_inf(&P); K.op = "g1v"; K.n = 3; setp1(1, &P); vf_run(&K); mpz_sub_ui(k, RN, 1); rpt_mul(&RC, &P, &RG, k); setp1(1, &P); vf_run(&K); }
+			/* degenerate coordinates: (x, 0), (0, y), (0, 0), (x, x), (p-1, p-1): off the curve unless the reference says otherwise (the formulas do not use b: (x, 0) behaves like a 2-torsion point) */
+			for (long x = 0; x < (vf_tier ? 120 : 40); x++) if (vf_mine()) { K.op = "g1v"; K.n = 3; P.inf = 0; mpz_set_si(P.x, x); mpz_set_ui(P.y, 0); setp1(1, &P); vf_run(&K); mpz_set_ui(P.x, 0); mpz_set_si(P.y, x); setp1(1, &P); vf_run(&K); mpz_set_si(P.x, x); mpz_set_si(P.y, x); setp1(1, &P); vf_run(&K);
+				mpz_sub_ui(P.x, RC.p, (unsigned long)x + 1); mpz_set_ui(P.y, 0); setp1(1, &P); vf_run(&K); mpz_set(P.y, P.x); setp1(1, &P); vf_run(&K); mpz_set(P.x, RG.x); mpz_set_si(P.y, x); setp1(1, &P); vf_run(&K); }
 			/* curve points from small x (outside the subgroup when the cofactor is > 1), their cofactor parts [r]P, members [h]P, member + cofactor part, small-order points */
 			int want = vf_tier ? 400 : 120, got = 0;
 			for (long x = 0; x < 4000 && got < want; x++) { mpz_set_si(t, x); if (!rpt_lift_x(&RC, &P, t)) continue; got++; if (!vf_mine()) continue; if (x & 1) rpt_neg(&RC, &P, &P);
@@ -214,6 +222,10 @@ static void enumerate(void) {
 			for (unsigned i = 0; i < 7; i++) if (vf_mine()) { mpz_set_si(k, ms[i]); rpt2_mul(&RC2, &P, &RG2, k); K.op = "g2v"; K.n = 3; setp2(1, &P); vf_run(&K);
 				rpt2_set(&T, &P); mpz_add_ui(T.y.a, T.y.a, 1); mpz_mod(T.y.a, T.y.a, F2P); setp2(1, &T); vf_run(&K); rpt2_set(&T, &P); mpz_add_ui(T.x.b, T.x.b, 1); mpz_mod(T.x.b, T.x.b, F2P); setp2(1, &T); vf_run(&K); }
 			if (vf_mine()) { rpt2_set_inf(&P); K.op = "g2v"; K.n = 3; setp2(1, &P); vf_run(&K); }
+			/* degenerate coordinates over F_p^2: (x, 0), (0, y), (0, 0), (x, x), generator x with small y */
+			for (long i = 0; i < (vf_tier ? 200 : 64); i++) if (vf_mine()) { K.op = "g2v"; K.n = 3; P.inf = 0; long a = i % 8, b = i / 8;
+				f2_set_si(&P.x, a, b); f2_set_si(&P.y, 0, 0); setp2(1, &P); vf_run(&K); f2_set_si(&P.x, 0, 0); f2_set_si(&P.y, a, b); setp2(1, &P); vf_run(&K); f2_set_si(&P.x, a, b); f2_set_si(&P.y, a, b); setp2(1, &P); vf_run(&K);
+				f2_set_si(&P.x, -a - 1, -b); f2_set_si(&P.y, 0, 0); setp2(1, &P); vf_run(&K); f2_set(&P.x, &RG2.x); f2_set_si(&P.y, a, b); setp2(1, &P); vf_run(&K); f2_set(&P.y, &RG2.y); f2_set_si(&P.x, a, b); setp2(1, &P); vf_run(&K); }
 			int want = vf_tier ? 400 : 120, got = 0;
 			for (long i = 0; i < 8000 && got < want; i++) { f2_set_si(&x, i % 40, i / 40); if (!rpt2_lift_x(&RC2, &P, &x)) continue; got++; if (!vf_mine()) continue; if (i & 1) rpt2_neg(&P, &P);
 				K.op = "g2v"; K.n = 3; setp2(1, &P); vf_run(&K);                                  /* full-order twist point */
@@ -232,6 +244,8 @@ static void enumerate(void) {
 			if (vf_mine()) { relt_zero(&T12, &A); gt_pack(K.v[1], &A); vf_run(&K); relt_one(&T12, &A); gt_pack(K.v[1], &A); vf_run(&K);
 				relt_zero(&T12, &A); mpz_sub_ui(A.c[0], RX_P, 1); gt_pack(K.v[1], &A); vf_run(&K);                         /* -1: order 2 */
 				for (int i = 0; i < 12; i++) mpz_sub(A.c[i], RX_P, G.c[i]); mpz_mod(A.c[0], A.c[0], RX_P); for (int i = 0; i < 12; i++) mpz_mod(A.c[i], A.c[i], RX_P); gt_pack(K.v[1], &A); vf_run(&K); /* -g: order 2r */ }
+			/* elements of the subfields F_p, F_p^2, F_p^6 (small coefficients) */
+			for (int f = 0; f < (vf_tier ? 60 : 20); f++) if (vf_mine()) { relt_zero(&T12, &A); mpz_set_si(A.c[0], f % 5 + 2); if (f >= 5) mpz_set_si(A.c[1], f % 3 + 1); if (f >= 10) { mpz_set_si(A.c[2], f % 4); mpz_set_si(A.c[4], f % 7 + 1); } if (f >= 15) mpz_set_si(A.c[3], 1); gt_pack(K.v[1], &A); vf_run(&K); for (int i = 0; i < 12; i++) if (mpz_sgn(A.c[i])) mpz_sub(A.c[i], RX_P, A.c[i]); gt_pack(K.v[1], &A); vf_run(&K); }
 			/* sparse and dense elements outside the cyclotomic subgroup; their images under the easy part (cyclotomic, order not dividing r); products with a member */
 			int nf = vf_tier ? 48 : 16;
 			mpz_t easy; mpz_init(easy); mpz_pow_ui(easy, RX_P, 6); mpz_sub_ui(easy, easy, 1); mpz_pow_ui(t, RX_P, 2); mpz_add_ui(t, t, 1); mpz_mul(easy, easy, t);
